@@ -25,6 +25,10 @@ CHECKS = {
         technique='property-based fault injection: generated DAG x failing node x exception-class family x build sequence; oracle on the escaping exception, invocation log, config frame condition and follow-up builds',
         text='Every generated DAG gets one failing Config node raising from one of 20 exception-class families (custom __init__/__new__/__str__, slots, un-subclassable, local class created at raise time, KeyError/OSError/UnicodeDecodeError/StopIteration/ExceptionGroup, BaseException subclasses, arguments whose repr raises) plus nodes that attempt nested fdl.build calls; a generated sequence of failing and good builds is judged for class/message/path fidelity, no-call-after-failure, unmodified config, working follow-up build and rejection of every nested build.',
         note='Trusted: harness/canon.walk path enumeration and path rendering in props/c05.py, refmodel.ref_build for follow-up builds. Context path required only where a proxy class can be built (see ASSUMPTIONS in evidence).'),
+    'C06': dict(
+        technique='property-based metamorphic testing: generated configuration triples related by equality-preserving / single equality-breaking rewrites; algebraic laws of == plus congruence with build checked against canonical forms',
+        text='Hypothesis generates a base DAG x and y=r1(x), z=r2(y) with r drawn from 7 equality-preserving rewrites (deepcopy, pickle, rebuild, default made explicit incl. positional-only, dict reordered, edit history, alias to a tuple of literals redirected) and 5 equality-breaking rewrites (leaf, callable, Buildable type, alias redirected, copies merged); totality, reflexivity, symmetry, transitivity, !=, expected truth value and x==y => identical built graphs (sharing included) are checked. Two genuine defects of the first-visit-path DAG comparison are listed as known findings with a narrow input feature.',
+        note='Trusted: rewrite functions and first_visit_paths classifier in harness/props/c06.py, harness/canon.py. NaN leaves excluded.'),
 }
 
 PENDING = {}
